@@ -106,6 +106,8 @@ theorem lmsafe_of3 {α : Type} {op : LM α}
 
 theorem lmsafe_moveHome : LMSafe (LB.moveHome S U) := lmsafe_of3 (C03_moveHome_total_wf S U)
 theorem lmsafe_moveEnd : LMSafe (LB.moveEnd S U) := lmsafe_of3 (C03_moveEnd_total_wf S U)
+theorem lmsafe_moveToFirstPrint : LMSafe (LB.moveToFirstPrint S U) :=
+  lmsafe_of3 (C03_moveToFirstPrint_total_wf S U)
 theorem lmsafe_moveBackward (n : Nat) : LMSafe (LB.moveBackward S U n) :=
   lmsafe_of3 fun lb h => C03_moveBackward_total_wf S U lb n h
 theorem lmsafe_moveForward (n : Nat) : LMSafe (LB.moveForward S U n) :=
